@@ -1,7 +1,7 @@
 (* C20 - today's code violates the property: witnesses for the two defective places, closed by vm_compute.
    Strings are encoded by rank: 'A' 'B' 'C' 'D' = 1 2 3 4. *)
 From Coq Require Import ZArith NArith List Bool.
-From OG Require Import C20.Model C20.Proofs C20.Cover C20.ScanProofs C20.NullOrder C20.BloomModel C20.BloomRepair.
+From OG Require Import C20.Model C20.Proofs C20.Cover C20.ScanProofs C20.NullOrder C20.StrOps C20.BloomModel C20.BloomRepair.
 From OG Require C20.TokModel.
 Import ListNotations.
 Open Scope Z_scope.
@@ -111,6 +111,31 @@ Proof.
   - split; vm_compute; reflexivity.
 Qed.
 Print Assumptions C20_null_strictly_first_refuted.
+
+(* ---------- unboundable predicates on a key column, before /repo 05a4bb5 (findings C20-matchphrase-key-as-equality,
+   C20-like-on-key-panics; fixed) ----------
+   strings by rank: 'a world' = 0, 'b' = 1, 'c' = 2, 'world' = 3, 'zeta' = 4; pk MATCHPHRASE 'world' holds for the row
+   'a world' (opaque predicate 1 = true) but the old translation reads it as pk = 'world' and prunes fragment 0 *)
+Theorem C20_matchphrase_as_equality_refuted :
+  exists x keys sizes i row,
+    In row (frag_rows sizes keys i) /\ eval_xcond (fun _ => true) x row = true /\
+    scan repaired [false] (compile_old [false] x) (build_index sizes keys) (length sizes) 8 0 = ScanOk [(1, 2)%nat].
+Proof.
+  exists (XStr 0 SKmatchphrase 3 1), [[Some 0]; [Some 1]; [Some 2]; [Some 4]], [2%nat; 2%nat], 0%nat, [Some 0].
+  split; [left; reflexivity|]. split; [reflexivity|]. vm_compute. reflexivity.
+Qed.
+Print Assumptions C20_matchphrase_as_equality_refuted.
+
+(* pk LIKE 'x' AND k1 = 1: the old translation appends no element for LIKE, the AND finds one operand only: CheckInRange
+   fails for every rectangle (the Go code indexes an empty stack: panic), while the repaired translation evaluates *)
+Theorem C20_like_no_element_refuted :
+  forall rgs, check_in_range (compile_old [false; true] (XAnd (XStr 0 SKlike 0 1) (XAtom 1 Ceq 1))) rgs = None /\
+              exists rpn, compile [false; true] (lower (XAnd (XStr 0 SKlike 0 1) (XAtom 1 Ceq 1))) = Some rpn /\
+                          check_in_range rpn rgs <> None.
+Proof.
+  intro rgs. split; [reflexivity|]. eexists. split; [reflexivity|]. simpl. discriminate.
+Qed.
+Print Assumptions C20_like_no_element_refuted.
 
 (* ---------- bloom-filter skip index: today's reader / writer (findings C20-bloom-gram-phrase, C20-bloom-nonascii-token-boundary) ----------
    split table = {space, '/'}; hash positions of a token: two numbers computed from its bytes *)
